@@ -196,6 +196,16 @@ def cmp(op, a, b):
             return B(_CMPF[op](ca, cb))
     if a is b:
         return B(op in ('le', 'ge', 'eq'))
+    # sqrt(x) compared with 0: sqrt is defined for x >= 0 and sqrt(x) = 0 <=> x = 0 (sound rewrite, avoids a sqrt atom)
+    if a.sort == 'R':
+        if a.op == 'sqrt' and b.op == 'const' and b.args[0] == 0:
+            x = a.args[0]
+            if op in ('eq', 'le'): return cmp('eq', x, ZERO)
+            if op in ('ne', 'gt'): return cmp('ne', x, ZERO) if op == 'ne' else cmp('gt', x, ZERO)
+            if op == 'ge': return TRUE
+            if op == 'lt': return FALSE
+        if b.op == 'sqrt' and a.op == 'const' and a.args[0] == 0:
+            return cmp({'lt': 'gt', 'gt': 'lt', 'le': 'ge', 'ge': 'le', 'eq': 'eq', 'ne': 'ne'}[op], b, a)
     return mk(op, (a, b), 'B')
 
 def bnot(a):
